@@ -5,5 +5,5 @@ From Coq Require Import String.
 From QSCGen Require Import G_pins.
 Open Scope string_scope.
 
-Lemma pin_to_vmec_current : pin_to_vmec = "1fdaee4becb1fb9ec7bc42c849a4645537f6729b7e8f220381052578fc438ef1".
+Lemma pin_to_vmec_current : pin_to_vmec = "b7bcda11b4d946f92ae2c44c93a69598ca466732071f85720f020af3be44725a".
 Proof. reflexivity. Qed.
